@@ -227,6 +227,7 @@ fn has(feat: &Value, f: &str) -> bool {
 
 fn generate(src: &Value) -> Vec<u8> {
     let mut book = umya_spreadsheet::new_file_empty_worksheet();
+    let all: Vec<String> = src["sheets"].as_array().unwrap().iter().map(|x| s(x, "name").to_string()).collect();
     for (idx, sh) in src["sheets"].as_array().unwrap().iter().enumerate() {
         let n = idx as u32 + 1;
         let feat = &sh["feat"];
@@ -235,6 +236,13 @@ fn generate(src: &Value) -> Vec<u8> {
         ws.get_cell_mut((1, 2)).set_value_string(format!("only on sheet {}", n));
         ws.get_cell_mut((2, 1)).set_value_number(n as f64 * 1.5);
         ws.get_cell_mut((2, 2)).set_formula("B1*2").set_formula_result_default("0");
+        // one reference into every sheet, to a cell below the row where workbook-level insertion/removal happens:
+        // such an edit of one sheet must be seen by the formulas of all the others, raw or not
+        for (m, other) in all.iter().enumerate() {
+            ws.get_cell_mut((8 + m as u32, 1))
+                .set_formula(format!("{}!B{}", other, FAR_ROW + 1000))
+                .set_formula_result_default("0");
+        }
         if has(feat, "style") {
             let c = ws.get_cell_mut((3, 1));
             c.set_value_string(format!("styled {}", n));
